@@ -217,9 +217,9 @@ func genOpCase(t *rapid.T) opCase {
 // ---- execution -----------------------------------------------------------------------------------
 
 type result struct {
-	Rows   []gen.Row `json:"rows"`  // the alignment after an in-place operation, or the returned one
-	Length int       `json:"len"`   // Length() of it (-9: not an alignment / nil)
-	Nil    bool      `json:"nil"`   // a nil result was returned
+	Rows   []gen.Row `json:"rows"` // the alignment after an in-place operation, or the returned one
+	Length int       `json:"len"`  // Length() of it (-9: not an alignment / nil)
+	Nil    bool      `json:"nil"`  // a nil result was returned
 	Names1 []string  `json:"names1"`
 	Names2 []string  `json:"names2"`
 	Err    string    `json:"err"`
